@@ -164,8 +164,15 @@ impl fmt::Display for CompoundVariable {
                     Primitive::Number(n) => n.to_string(),
                     Primitive::PositiveInteger(n) => n.to_string(),
                     Primitive::Integer(n) => n.to_string(),
-                    //literal name fragments such as the _2 in set_A__2
-                    Primitive::String(s) => s.clone(),
+                    //literal name fragments such as the _2 in set_A__2; any other
+                    //string index was written as {"a"} and must stay a string
+                    Primitive::String(s)
+                        if s.starts_with('_')
+                            && s.trim_start_matches('_').chars().all(char::is_alphanumeric)
+                            && !s.trim_start_matches('_').is_empty() =>
+                    {
+                        s.clone()
+                    }
                     _ => format!("{{{}}}", i),
                 },
                 PreExp::Variable(name) => name.value().clone(),
